@@ -7,7 +7,7 @@ for d in seeded/*/; do
   name=$(basename $d); id=${name%%_*}
   if [ -n "$props" ] && ! echo " $props " | grep -q " $id "; then continue; fi
   grep -q "\"property_id\": \"$id\"" MANIFEST.json || { echo "SEED $name: property $id not claimed"; continue; }
-  git -C /repo apply $d/patch.diff || { echo "SEED $name: patch does not apply"; continue; }
+  git -C /repo apply /verif/$d/patch.diff || { echo "SEED $name: patch does not apply"; continue; }
   out=$(VERIF_NO_EVIDENCE=1 ./check $id --tier quick 2>&1); rc=$?
   git -C /repo checkout -- .
   obl=$(echo "$out" | grep '^VIOLATION' | sed 's/.*obligation=\([^ ]*\).*/\1/' | head -3 | paste -sd,)
